@@ -516,7 +516,7 @@ func verifC12Run(t *testing.T, vc *verifCtx, dir string, i int,
 			h := &c.Htlcs[pos]
 			op := wire.OutPoint{
 				Hash:  commitHash,
-				Index: uint32(verifCCOutputIndex(pos)),
+				Index: uint32(verifCCOutputIndex(c.Htlcs, k, pos)),
 			}
 			cls := "absent"
 			if h.hasOutput(k) {
